@@ -247,6 +247,9 @@ func rangeIndexAlloc(li *loopInfo) *ssa.Alloc {
 
 func (ex *Exec) localByName(name string) *ssa.Alloc {
 	var best *ssa.Alloc
+	if ex.fn == nil {
+		return nil
+	}
 	for _, b := range ex.fn.Blocks {
 		for _, in := range b.Instrs {
 			if a, ok := in.(*ssa.Alloc); ok && a.Comment == name {
